@@ -63,6 +63,8 @@ def native_scenario(test):
     finally:
         shutil.rmtree(tmp, ignore_errors=True)
 
+SCENARIOS = {'C06': ['TestVxStuck', 'TestVxExactlyOnce'], 'C07': ['TestVxShutdown'], 'C08': ['TestVxHeadOfLine', 'TestVxPanics'], 'C14': ['TestVxPanics', 'TestVxExactlyOnce']}
+
 NATIVE_FOR = {'accepted task never started: stuck state': 'TestVxStuck', 'head-of-line blocking: idle worker while an accepted task waits': 'TestVxHeadOfLine',
               'lane goroutine left behind after cancel': 'TestVxShutdown', 'producer stays blocked after cancel': 'TestVxShutdown'}
 
@@ -77,11 +79,15 @@ def main():
     race_candidates = []
     native_done = {}
     validated = [0]
-    for cfg in CONFIGS[tier]:
-        extra = dict(status=1 if prop == 'C14' else 0, wait=1 if prop == 'C07' else 0, onelane=1 if prop == 'C08' else 0)
+    unsettled = []
+    def one_config(cfg):
+        nonlocal states, transitions
+        extra = dict(status=2 if prop == 'C14' else 0, wait=1 if prop == 'C07' else 0, onelane=1 if prop == 'C08' else 0)
         ts, rc = extract(prop, cfg, extra)
         for n in ts.get('notes') or []:
             inconclusive.append('%s: %s' % (cfg, n))
+            if 'UNSUPPORTED' in n or 'LIMIT' in n:
+                unsettled.append('extraction left the encodable fragment: ' + n[:160])
         funcs.update(ts['funcs']); stubs.update(ts['stubs']); files.update(ts.get('files') or {})
         spec = TaskLaneSpec(cfg['lanes'], cfg['queue'], cfg['tasks'])
         m = Model(ts, spec, panics=(prop == 'C14'))
@@ -175,10 +181,12 @@ def main():
                 violations.append({'config': cname, 'what': 'safety predicate violated', 'trace': tr})
             else:
                 for f in fails:
+                    unsettled.append('%s: obligation %s failed and BMC found no trace within %d steps' % (cname, f[0], K))
                     notes.append('%s: induction not established at %s (%s); no violating trace within %d steps: claim reduced to BMC depth %d' % (cname, f[0], f[1], K, K))
             for pf in prog_fail:
                 # is such a stuck state reachable from Init?
                 notes.append('%s: progress obligation failed under the invariant: %s (%s)' % (cname, pf[0], pf[1]))
+                unsettled.append('%s: %s' % (cname, pf[0]))
                 test = NATIVE_FOR.get(pf[0])
                 if test and test not in native_done:
                     native_done[test] = native_scenario(test)
@@ -198,6 +206,13 @@ def main():
         print('config %s: %d steps, %d obligations (%d unsat), induction failures %d, progress failures %d, races %d, solver %.1fs' % (
             cname, len(m.steps), res['obligations'], res['unsat'], len(fails), len(prog_fail), len(races), ck.stats['solver_s']))
         sys.stdout.flush()
+    for cfg in CONFIGS[tier]:
+        try:
+            one_config(cfg)
+        except Exception as ex:
+            import traceback
+            inconclusive.append("%s: analysis failed (%s: %s)" % (cfg, type(ex).__name__, str(ex)[:200]))
+            unsettled.append("the extracted system of %s could not be encoded (%s)" % (cfg, type(ex).__name__))
     # data-race candidates (states satisfying the inductive invariant with two conflicting plain accesses
     # enabled) are confirmed natively: go test -race on a stress test of exactly that pair of sites
     if race_candidates:
@@ -209,6 +224,18 @@ def main():
             validated[0] += 1
         else:
             notes.append('data-race candidates not confirmed by the native race detector: ' + '; '.join(c['a'] + ' || ' + c['b'] for c in race_candidates[:4]))
+    # Whatever the solver-based analysis could not settle (a failed obligation without a trace from Init, a system
+    # that left the encodable fragment) is handed to the native scenarios of this property; only a scenario that
+    # fails on the real runtime turns it into a violation.
+    if unsettled and not violations:
+        print('  %d unsettled item(s), e.g. %s; running native scenarios %s' % (len(unsettled), unsettled[0][:140], SCENARIOS.get(prop)))
+        for test in SCENARIOS.get(prop, []):
+            if test not in native_done:
+                native_done[test] = native_scenario(test)
+            if native_done[test][1]:
+                violations.append({'config': 'native', 'what': 'native scenario %s fails on this tree (solver-side: %s)' % (test, unsettled[0][:200]), 'trace': native_done[test][0][-10:]})
+                validated[0] += 1
+                break
     # known findings
     known = []
     try:
